@@ -30,6 +30,7 @@ package merge
 //@   requires resolverWf(r) && mergeWf(r, m)
 //@   modifies m.*, r.rows.*, region(r.rows.Values), region(r.rows.Layers)
 //@   final [C05] err == nil ==> len(m.ResolvedRow) == r.nCols && keptAll(r, m, baseRow, r.nCols)
+//@   ensures err == nil ==> fresh(m.ResolvedRow)
 //@   loop 1 invariant 0 <= iter && iter <= len(m.Others) && uniqSums != nil && fresh(layersWhereRowIsRemoved)
 //@   loop 1 invariant forall(k, member(uniqSums, k) ==> 0 <= uniqSums[k] && uniqSums[k] < len(m.Others) && m.Others[uniqSums[k]] != nil)
 //@   loop 1 invariant forall(k, 0, len(layersWhereRowIsRemoved), 0 <= layersWhereRowIsRemoved[k] && layersWhereRowIsRemoved[k] < len(m.Others))
@@ -56,6 +57,18 @@ package merge
 //@   loop 5 invariant [C05] member(r.cd.BaseIdx, i) && !unres(m, i) && mod != nil ==> m.ResolvedRow[i] == *mod
 //@   loop 5 local
 //@   loop 5 decreases len(r.rows.Values) - iter
+
+// Resolve: the cell-by-cell resolution is skipped (m.ResolvedRow left as it was) only when every layer either lacks the row
+// or holds it with the base row's sum.
+//@ func (*RowResolver).Resolve
+//@   props C05
+//@   requires resolverWf(r) && mergeWf(r, m) && (m.Base == nil || len(m.Base) == 16) && forall(k, 0, len(m.Others), m.Others[k] == nil || len(m.Others[k]) == 16)
+//@   modifies m.*, r.rows.*, region(r.rows.Values), region(r.rows.Layers)
+//@   final [C05] err == nil && !fresh(m.ResolvedRow) ==> forall(k, 0, len(m.Others), m.Others[k] == nil || (m.Base != nil && sid(m.Others[k]) == sid(m.Base)))
+//@   loop 1 invariant 0 <= iter && iter <= len(m.Others) && 0 <= unchanges && unchanges <= nonNils && nonNils <= iter
+//@   loop 1 invariant [C05] unchanges == nonNils ==> forall(k, 0, iter, m.Others[k] == nil || (m.Base != nil && sid(m.Others[k]) == sid(m.Base)))
+//@   loop 1 invariant [C05] nonNils == 0 ==> forall(k, 0, iter, m.Others[k] == nil)
+//@   loop 1 decreases len(m.Others) - iter
 
 // Untouched base rows are carried over into the result. The rows collected so far are laid out like c.cd.Names.
 // Call-site obligations on Sorter.AddRow (cur: index of the row in its block):
